@@ -54,3 +54,98 @@ def parse_case(cid, text, g, le='lf', tab=4, scanner='plain', flt=('drop', 'Ws')
     return '(parse-case %s (le %s) (tab %d) (scanner %s) (filter %s) (sink %d) (pushed%s) (fmt %d) (runs %d) (text%s) (g %s))' % (
         cid, le, tab, scanner, sx(flt), sink, ''.join(' %d' % t for t in pushed), fmt, runs,
         ''.join(' ' + s for s in text), sx(g))
+
+# ---------------------------------------------------------------------------------------------
+# grammar generators
+# ---------------------------------------------------------------------------------------------
+LEAF_KINDS = ['A', 'B', 'C', 'Comma']
+
+def leaf(r, kinds=LEAF_KINDS):
+    k = r.below(10)
+    if k < 4: return ['one', r.choice(kinds)]
+    if k == 4: return ['any'] + sorted(set(r.choice(kinds) for _ in range(2)))
+    if k == 5: return ['anyidx'] + sorted(set(r.choice(kinds) for _ in range(2)))
+    if k == 6: return ['seq'] + [r.choice(kinds) for _ in range(1 + r.below(2))]
+    if k == 7: return ['seqcount'] + [r.choice(kinds) for _ in range(1 + r.below(3))]
+    if k == 8: return r.choice([['pred', ['is', r.choice(kinds)]], ['pred', ['not', ['is', r.choice(kinds)]]],
+                                ['pred', ['or', ['is', 'A'], ['is', 'B']]], ['pred', ['and', ['not', ['is', 'A']], ['not', ['is', 'Ws']]]]])
+    return r.choice(['empty', 'eot'])
+
+C06_FILTERS = [['drop', 'Ws'], ['drop', 'Ws', 'Comma'], ['keep', 'A', 'B', 'Ws']]
+
+def gen_c06(r, size):
+    """random grammar over the C06 fragment"""
+    if size <= 1:
+        return leaf(r)
+    k = r.below(22)
+    a = lambda: gen_c06(r, size // 2)
+    if k < 3: return ['both', a(), a()]
+    if k == 3: return ['left', a(), a()]
+    if k == 4: return ['right', a(), a()]
+    if k == 5: return ['center', gen_c06(r, size // 3), gen_c06(r, size // 3), gen_c06(r, size // 3)]
+    if k == 6: return ['map', r.below(9), gen_c06(r, size - 1)]
+    if k == 7: return ['discard', gen_c06(r, size - 1)]
+    if k < 11: return ['either', a(), a()]
+    if k < 13: return ['maybe', gen_c06(r, size - 1)]
+    if k == 13: return ['reqif', r.choice(['T', 'F']), gen_c06(r, size - 1)]
+    if k == 14: return ['cond', r.choice(['T', 'F']), gen_c06(r, size - 1)]
+    if k == 15: return [r.choice(['implies', 'antecedent', 'consequent']), a(), a()]
+    if k == 16: return ['condimplies', a(), r.choice(['always', 'never', ['istok', 'A']]), a()]
+    if k == 17: return ['filterwith', r.choice(C06_FILTERS), gen_c06(r, size - 1)]
+    if k == 18: return ['unfiltered', gen_c06(r, size - 1)]
+    if k == 19: return ['sub', gen_c06(r, size - 1)]
+    return leaf(r)
+
+def nonnullable_leaf(r, kinds=LEAF_KINDS):
+    k = r.below(5)
+    if k < 3: return ['one', r.choice(kinds)]
+    if k == 3: return ['any'] + sorted(set(r.choice(kinds) for _ in range(2)))
+    return ['seq'] + [r.choice(kinds) for _ in range(1 + r.below(2))]
+
+def gen_item(r, size, kinds=LEAF_KINDS):
+    """non-nullable item parser from the C06 family (syntactic test: every path consumes a token)"""
+    if size <= 1:
+        return nonnullable_leaf(r, kinds)
+    k = r.below(8)
+    if k == 0: return ['both', gen_item(r, size // 2, kinds), gen_c06(r, size // 2)]
+    if k == 1: return ['both', nonnullable_leaf(r, kinds), ['maybe', nonnullable_leaf(r, kinds)]]
+    if k == 2: return ['either', gen_item(r, size // 2, kinds), gen_item(r, size // 2, kinds)]
+    if k == 3: return ['map', r.below(9), gen_item(r, size - 1, kinds)]
+    if k == 4: return ['right', ['maybe', nonnullable_leaf(r, kinds)], gen_item(r, size // 2, kinds)]
+    return nonnullable_leaf(r, kinds)
+
+def gsize(g):
+    return 1 if not isinstance(g, list) else 1 + sum(gsize(x) for x in g[1:])
+
+def gsubterms(g):
+    """direct sub-grammars (positions and terms) of a grammar node"""
+    if not isinstance(g, list):
+        return []
+    out = []
+    for i, x in enumerate(g[1:], 1):
+        if x in ('empty', 'eot', 'userfail') or (isinstance(x, list) and x and isinstance(x[0], str) and x[0] in GHEADS):
+            out.append((i, x))
+    return out
+
+GHEADS = {'one', 'any', 'anyidx', 'seq', 'seqcount', 'pred', 'left', 'right', 'both', 'center', 'map', 'discard', 'text', 'spanned',
+          'sub', 'either', 'maybe', 'reqif', 'cond', 'implies', 'antecedent', 'consequent', 'condimplies', 'filterwith', 'unfiltered',
+          'raw', 'unrec', 'recover', 'recoverdef', 'recoverdelayed', 'recoverdefdelayed', 'stabilize', 'repeat', 'repeatcount',
+          'repeatuntil', 'repeatcountuntil', 'intersperse', 'interspersecount', 'intersperseuntil', 'interspersecountuntil',
+          'interspersedef', 'bracket', 'bracketdef', 'bracketidx', 'bracketdefidx', 'upto', 'list', 'listb', 'listdef', 'listbdef',
+          'ctxpush', 'probe'}
+
+def shrink_grammar(g):
+    """smaller grammars: replace a node by a sub-grammar or by a leaf"""
+    rep0 = isinstance(g, list) and (g[0].startswith('repeat') or g[0].startswith('intersperse') or g[0].startswith('list'))
+    for i, x in gsubterms(g):
+        yield x
+    for i, x in gsubterms(g):
+        if rep0:
+            continue
+        for y in shrink_grammar(x):
+            yield g[:i] + [y] + g[i + 1:]
+        # never replace a repetition / list item (or separator) by a nullable parser: the library
+        # documents non-nullable bodies as a precondition (an unbounded loop otherwise)
+        rep = isinstance(g, list) and (g[0].startswith('repeat') or g[0].startswith('intersperse') or g[0].startswith('list'))
+        if x != 'empty' and not rep and not (isinstance(x, list) and x[0] == 'one'):
+            yield g[:i] + ['empty'] + g[i + 1:]
